@@ -16,7 +16,7 @@ theorem readMap_enc (utf8 : Bytes → Bool) (m : KVs) (rest : Bytes) (h : KVs.WF
   _root_.Peppi.readMap_enc utf8 m rest h
 
 /- from `Peppi.Lemmas.PeppiRound` -/
-theorem peppiRead_written {χ : Type} (T : TextOracle) (g : PGame χ) (startBytes : Bytes) (endBytes : Option Bytes) (trailerOk : Bool)
+theorem peppiRead_written {μ φ : Type} (T : TextOracle) (g : PGame μ φ) (startBytes : Bytes) (endBytes : Option Bytes) (trailerOk : Bool)
     (hstart : gameStart T startBytes = .ok g.start)
     (hend : endBytes.map gameEnd = g.fend.map Res.ok)
     (hgecko : ∀ c, g.gecko = some c → c.2 < 2 ^ 32)
@@ -48,12 +48,13 @@ theorem parseMeta_json (md : Option KVs) : parseMeta (jsonMeta md) = .ok md :=
   _root_.Peppi.parseMeta_json md
 
 /- from `Peppi.SlppBytes` -/
-theorem slppRead_written_json (C : Codec KVs) (T : TextOracle) (g : PGame KVs) (startBytes : Bytes) (endBytes : Option Bytes)
+theorem slppRead_written_json {φ : Type} (C : Codec KVs φ) (T : TextOracle) (g : PGame KVs φ) (startBytes : Bytes) (endBytes : Option Bytes)
     (hstart : gameStart T startBytes = .ok g.start)
     (hend : endBytes.map gameEnd = g.fend.map Res.ok)
     (hgecko : ∀ c, g.gecko = some c → c.2 < 2 ^ 32)
     (hs : SizesOK C.withJsonMeta g startBytes endBytes) (skip : Bool) :
-    slppRead C.withJsonMeta T skip (slppWrite C.withJsonMeta g startBytes endBytes) = .ok (if skip then { g with frames := none } else g) :=
+    slppRead C.withJsonMeta T skip (slppWrite C.withJsonMeta g startBytes endBytes) =
+      .ok (if skip then { g with frames := none } else { g with frames := g.frames.map C.norm }) :=
   _root_.Peppi.slppRead_written_json C T g startBytes endBytes hstart hend hgecko hs skip
 
 theorem writeMap_enc (utf8 : Bytes → Bool) (m : KVs) (d : Nat) (h : KVs.WF utf8 d m) :
